@@ -135,6 +135,17 @@ def leader(n_att=3, n_ch=2, map_proj=True, fac_len=(100, 200, 300, 400)):
     return b"".join(bytes(p) for p in parts)
 
 
+def leader_boundaries(n_att=3, n_ch=2, map_proj=True, fac_len=(100, 200, 300, 400)):
+    """byte offsets at which a leader record ends (the last one is the file size)"""
+    sizes = [720, 4096] + ([1620] if map_proj else []) + [4680, 16384, 9860, 1620] \
+        + list(fac_len) + [5000]
+    out, pos = [], 0
+    for sz in sizes:
+        pos += sz
+        out.append(pos)
+    return out
+
+
 def volume(n_fp=4):
     v = _rec(360)
     _put(v, VD_CREATION, "2020022912345678")
